@@ -330,3 +330,56 @@ def replay_with_timeout(case, variants_of):
     if case.get('variant') == 'timeout':
         return {'violates': False, 'observed': 'terminated on replay', 'key': 'ok'}
     return replay_joint(case, variants_of)
+
+
+def summary_selftest(seed=5, rounds=10):
+    """the z3 summaries (pysym/summaries.py, with their static-bound shortcuts) against the REAL operations of the current tree:
+    symbolic operands are built exactly as in the checks, each summary result is instantiated on random concrete operands and
+    compared with ops.<op> on the same operands.  Returns (cases, mismatches)."""
+    import random
+    import z3
+    import fpy2 as fp
+    import fpy2.ops as real_ops_mod
+    from fpy2 import Float
+    from pysym.core import explore, SymInt
+    from pysym import summaries
+    real = dict(add=real_ops_mod.add, sub=real_ops_mod.sub, mul=real_ops_mod.mul, fma=real_ops_mod.fma, neg=real_ops_mod.neg, fabs=real_ops_mod.fabs, round=real_ops_mod.round)
+    ctxs = [fp.IEEEContext(5, 8, fp.RM.RTP), fp.IEEEContext(5, 10), fp.IEEEContext(5, 9, fp.RM.RTZ), fp.FP32, fp.FP32.with_params(rm=fp.RM.RTN), fp.FP64, fp.MPFixedContext(-1, fp.RM.RTZ), fp.INTEGER,
+            fp.MPSFloatContext(3, -2, fp.RM.RTN), fp.MPSFloatContext(4, -3), fp.MPFloatContext(2, fp.RM.RTP), fp.MPFloatContext(1), fp.IEEEContext(3, 6, fp.RM.RNE), fp.REAL]
+    rng = random.Random(seed)
+    out = {'n': 0, 'bad': []}
+    exps = (-1, -2, 0)
+
+    def setup(e):
+        return ([(e.fresh('c%d' % k, 0, 31), e.fresh('s%d' % k, 0, 1)) for k in range(3)],)
+
+    def run(e, leaves):
+        S = summaries.make(real)
+        xs = [summaries._mk_float(s.t != 0, ex, m.t, None, 5) for (m, s), ex in zip(leaves, exps)]
+        for ctx in ctxs:
+            for name, args in (('add', xs[:2]), ('sub', xs[:2]), ('mul', xs[:2]), ('fma', xs), ('round', xs[:1]), ('neg', xs[:1]), ('fabs', xs[:1])):
+                try:
+                    r = S[name](*args, ctx=ctx)
+                except NotImplementedError:
+                    continue
+                for _ in range(rounds):
+                    vals = [(rng.randrange(32), rng.randrange(2)) for _ in range(3)]
+                    sub = []
+                    for (m, s), (vm, vs) in zip(leaves, vals):
+                        sub += [(m.t, z3.BitVecVal(vm, e.W)), (s.t, z3.BitVecVal(vs, e.W))]
+                    ct = r._real._c; st = r._real._s
+                    cv = z3.simplify(z3.substitute(ct.t, *sub)).as_long() if type(ct) is SymInt else int(ct)
+                    sv = (z3.simplify(z3.substitute(st.t, *sub)).as_long() != 0) if type(st) is SymInt else bool(st)
+                    conc = [Float(bool(vs), ex, vm) for (vm, vs), ex in zip(vals, exps)][:len(args)]
+                    try:
+                        want = real[name](*conc, ctx=ctx)
+                    except Exception:  # noqa  the real operation refuses these operands under this context
+                        continue
+                    if want.is_nar():
+                        continue
+                    out['n'] += 1
+                    got = Float(sv, r._real._exp, cv)
+                    if got.as_rational() != want.as_rational() or (want.as_rational() == 0 and bool(got.s) != bool(want.s)):
+                        out['bad'].append([name, repr(ctx)[:60], [_show(c) for c in conc], _show(got), _show(want)])
+    explore(run, setup, W=96, bl_max=88, max_paths=1)
+    return out['n'], out['bad']
